@@ -495,6 +495,9 @@ def run(ctx: core.Ctx):
     w = reused_columns(ctx)
     if w is not None:
         witness = witness or w
+    w = core.realsock_witness(core.realsock(ctx, ["slow_reader"]))     # 12000 rows of 1 kB over real sockets to a slow reader: every row decodes
+    if w is not None:
+        witness = witness or w
 
     if witness is not None:
         core.report_violation(ctx, "a client does not decode the value the application returned", witness)
